@@ -44,7 +44,7 @@ ZERO_HULLS = {
     "collinear3": np.array([[-1.0, -1.0, -1.0], [0.0, 0.0, 0.0], [2.0, 2.0, 2.0]]),
 }
 PRIM = ("sphere", "capsule", "box", "ellipsoid", "cylinder")
-PLACEMENTS = ["coincident", "touch_x", "half_x", "apart_x", "small_generic", "diag_touch", "same_object", "touch_z", "tiny_gap_x"]
+PLACEMENTS = ["coincident", "touch_x", "half_x", "apart_x", "small_generic", "diag_touch", "same_object", "touch_z", "tiny_gap_x", "small_gap_x", "small_gap_z"]
 ORI_PAIRS = [(0, 0), (5, 0), (24, 28), (0, 31), (13, 26)]
 
 
@@ -104,8 +104,10 @@ def enumerate_states(tier, seed):
             for op in range(1, len(ORI_PAIRS)):
                 for pl in ((2, 1) if tier == "quick" else (0, 1, 2, 4, 5)):
                     states.append({"a": ia, "b": ib, "pl": pl, "op": op})
+    states += vs_states()
     meta = {"bound_completed": "%d collider variants (incl. aspect-1e4 needles/plates, zero-volume hulls) fully crossed as ordered pairs x "
-                               "%d placements (identity orientations) + %d orientation pairs x %d placements" %
+                               "%d placements (identity orientations) + %d orientation pairs x %d placements + vertex/segment and "
+                               "segment/segment pairs in general position (3 segments x 4 parameters x 4 normals x 4 gaps, 3 pairings)" %
                                (n, len(PLACEMENTS), len(ORI_PAIRS) - 1, 2 if tier == "quick" else 5), "exhaustive": True}
     return states, meta
 
@@ -141,6 +143,39 @@ def _label(item):
     return "hull_" + str(idx)
 
 
+def _small_polytope(item):
+    t, (kind, idx) = item
+    if kind == "zero":
+        return True
+    if kind != "base":
+        return False
+    if t == "box":
+        return True
+    if t in ("mesh", "hull"):
+        return sc.SIZES[t][idx][0] in ("tetra", "cube", "octa", "skew", "offtetra", "corner", "skewraw")
+    return False
+
+
+def _genuine_tetrahedron(simplex, A, B):
+    S = np.asarray(simplex, dtype=float)
+    if S.shape != (4, 3) or not np.all(np.isfinite(S)):
+        return False
+    M = np.vstack([S.T, np.ones(4)])
+    if abs(np.linalg.det(M)) < 1e-9:
+        return False
+    lam = np.linalg.solve(M, np.array([0.0, 0.0, 0.0, 1.0]))
+    if np.min(lam) < -1e-9:      # the origin may lie on the boundary of the tetrahedron (concentric symmetric shapes)
+        return False
+    for d in sc.DIRS:
+        d = np.ascontiguousarray(d)
+        for sgn in (1.0, -1.0):
+            n = sgn * d
+            h = float(np.asarray(A.support_function(n)) @ n) - float(np.asarray(B.support_function(-n)) @ n)
+            if np.max(S @ n) > h + 1e-9:
+                return False
+    return True
+
+
 def _finite_result(name, r):
     from distance3d.utils import MAX_FLOAT
     if name in ("gjk.gjk",):
@@ -156,7 +191,61 @@ def _finite_result(name, r):
     return True
 
 
+# ------------------------------------------------------------------ zero-volume pairs in general position
+#
+# single vertex next to the interior (or an end) of a segment, and segment next to segment: 3 segments x 4 parameters along the segment
+# x 4 perpendicular directions x 4 gaps (0, 1e-7, 1e-5, 1e-3), both argument orders, all entry points
+
+VS_SEGMENTS = [((-0.5, 0.0, 0.0), (0.5, 0.0, 0.0)), ((-0.3, 0.4, -0.2), (0.6, -0.1, 0.5)), ((0.1, 0.2, -0.9), (0.15, 0.25, 0.8))]
+VS_T = (0.0, 0.25, 0.5, 0.7)
+VS_GAPS = (0.0, 1e-7, 1e-5, 1e-3)
+
+
+def vs_states():
+    return [{"k": "vs", "seg": i, "t": j} for i in range(len(VS_SEGMENTS)) for j in range(len(VS_T))]
+
+
+def run_vs(desc):
+    from distance3d import colliders as C
+    a, b = [np.array(p, dtype=float) for p in VS_SEGMENTS[desc["seg"]]]
+    t = VS_T[desc["t"]]
+    u = (b - a) / np.linalg.norm(b - a)
+    e1 = np.cross(u, [0.3, -0.5, 0.8])
+    e1 /= np.linalg.norm(e1)
+    e2 = np.cross(u, e1)
+    viol, n_eval, hist = [], 0, {"support_calls": {}, "entry": {}}
+    seen = set()
+    for ni, nrm in enumerate((e1, -e1, e2, (e1 + e2) / np.sqrt(2.0))):
+        for gap in VS_GAPS:
+            p = a + t * (b - a) + gap * nrm
+            seg = C.ConvexHullVertices(np.ascontiguousarray(np.array([a, b])))
+            vert = C.ConvexHullVertices(np.ascontiguousarray(np.array([p])))
+            seg2 = C.ConvexHullVertices(np.ascontiguousarray(np.array([p - 0.4 * e2, p + 0.6 * e2])))
+            for label, X, Y in (("vertex-segment", vert, seg), ("segment-vertex", seg, vert), ("segment-segment", seg, seg2)):
+                for name, fn in entries("hull", "hull"):
+                    instr.instrument([X, Y], budget=BUDGET)
+                    n_eval += 1
+                    try:
+                        r = fn(X, Y)
+                        kind = None if _finite_result(name, r) else "nonfinite_output"
+                    except instr.BudgetExceeded:
+                        kind = "more_than_1000_support_evaluations"
+                    except Exception as e:  # noqa
+                        kind = "exception:" + type(e).__name__
+                    finally:
+                        instr.uninstrument([X, Y])
+                    hist["entry"][name] = 1
+                    if kind is not None:
+                        v = _viol(name, kind, label + ":general_position", {"segment": [a, b], "t": t, "normal": nrm, "gap": gap})
+                        if v["sig"] not in seen:
+                            seen.add(v["sig"])
+                            viol.append(v)
+    return {"viol": viol, "n_eval": n_eval, "n_trans": n_eval, "traces": n_eval, "nontrivial_n": 1, "hist": hist}
+
+
 def run_state(desc):
+    if desc.get("k") == "vs":
+        return run_vs(desc)
     from distance3d import epa
     ia, ib = ITEMS[desc["a"]], ITEMS[desc["b"]]
     oa, ob = ORI_PAIRS[desc["op"]]
@@ -173,6 +262,10 @@ def run_state(desc):
         off = cAB + np.array([hA[0] + hB[0], 0.0, 0.0])
     elif pl == "tiny_gap_x":
         off = cAB + np.array([hA[0] + hB[0] + 1e-9, 0.0, 0.0])
+    elif pl == "small_gap_x":
+        off = cAB + np.array([hA[0] + hB[0] + 1e-5, 0.0, 0.0])
+    elif pl == "small_gap_z":
+        off = cAB + np.array([0.0, 0.0, hA[2] + hB[2] + 1e-5])
     elif pl == "half_x":
         off = cAB + np.array([0.5 * (hA[0] + hB[0]), 0.0, 0.0])
     elif pl == "apart_x":
@@ -233,6 +326,13 @@ def run_state(desc):
             hist["entry"]["epa"] = 1
         except AssertionError:
             hist["entry"]["epa_capacity_assertion"] = 1
+            # the capacity assertion is only allowed for smooth shapes: for two small polytopes (<= 8 vertices each) and a
+            # genuine GJK tetrahedron (non-degenerate, origin inside, every row inside the Minkowski difference) it is a violation
+            try:
+                if _small_polytope(ia) and (_small_polytope(ib) or pl == "same_object") and _genuine_tetrahedron(simplex, A, B):
+                    viol.append(_viol("epa", "capacity_assertion_on_small_polytopes", cls + ":" + pl, {"simplex": simplex}))
+            except Exception:  # noqa
+                pass
         except instr.BudgetExceeded:
             viol.append(_viol("epa", "more_than_1000_support_evaluations", cls + ":" + pl, {}))
         except Exception as e:  # noqa
@@ -240,7 +340,7 @@ def run_state(desc):
         finally:
             instr.uninstrument([A, B])
     degenerate = ia[1][0] != "base" or ib[1][0] != "base" or ta in ("disk", "ellipse") or tb in ("disk", "ellipse") \
-        or pl in ("coincident", "touch_x", "same_object", "diag_touch", "touch_z", "tiny_gap_x")
+        or pl in ("coincident", "touch_x", "same_object", "diag_touch", "touch_z", "tiny_gap_x", "small_gap_x", "small_gap_z")
     sample = None
     if desc["a"] == 7 and desc["pl"] == 1 and desc["op"] == 0 and ib[1][0] == "zero":
         sample = {"desc": desc, "A": _label(ia), "B": _label(ib), "placement": pl, "offset": off}
